@@ -42,6 +42,67 @@ def history_pass(ctx, prop, out):
     ctx.ev(n)
 
 
+def inprocess_order_pass(ctx, prop):
+    """Same process, other call orders: the remembered calls are repeated sorted by input (so that the calls on ONE input with
+    DIFFERENT options run back to back, in both orders), and once more right after the caller has mutated the list / dict the
+    previous call returned. A memo keyed on part of the arguments, a 'last call' cache, or a shared object handed out to callers
+    shows up as a result that differs from the one the workload observed."""
+    import importlib
+    cache = {}
+
+    def resolve(func):
+        f = cache.get(func)
+        if f is None:
+            mod, _, name = func.partition(":")
+            f = importlib.import_module(mod)
+            for part in name.split("."):
+                f = getattr(f, part)
+            cache[func] = f
+        return f
+
+    def norm(r):
+        if hasattr(r, "_asdict") or isinstance(r, tuple) or hasattr(r, "__next__"):
+            r = list(r)
+        return r
+
+    def differs(r, remembered):
+        a, b = json.loads(remembered), norm(r)
+        if isinstance(a, (list, tuple)):
+            a = list(a)
+        try:
+            return a != b and json.dumps(a, ensure_ascii=False) != json.dumps(b, ensure_ascii=False)
+        except (TypeError, ValueError):
+            return True
+
+    order = sorted(range(len(ctx.history)), key=lambda i: (ctx.history[i][0], json.dumps(ctx.history[i][1], ensure_ascii=False), json.dumps(ctx.history[i][2], sort_keys=True)))
+    n = 0
+    for which, seq in (("sorted-by-input", order), ("sorted-by-input-reversed", order[::-1])):
+        for i in seq:
+            func, args, kwargs, remembered = ctx.history[i]
+            try:
+                f = resolve(func)
+            except Exception:
+                continue
+            for attempt in ("call", "call-after-caller-mutated-previous-result"):
+                try:
+                    r = norm(f(*args, **kwargs))
+                except Exception as e:
+                    r = {"raised": type(e).__name__}
+                n += 1
+                if differs(r, remembered):
+                    ctx.viol("%s:result-depends-on-call-order:%s" % (prop, func.split(":")[1]), {"history_call": [func, args, kwargs]},
+                             {"observed_by_workload": json.loads(remembered), "later": repr(norm(r))[:300], "order": which, "attempt": attempt})
+                    break
+                if isinstance(r, list):
+                    r.append("mutated-by-the-caller")
+                elif isinstance(r, dict) and "raised" not in r:
+                    r["mutated-by-the-caller"] = 1
+                else:
+                    break
+    ctx.count("call-order-pass-evaluations", n)
+    ctx.ev(n)
+
+
 def main(argv):
     prop, tier, seed, shard, nshards, out = argv[:6]
     replay_file = argv[6] if len(argv) > 6 else None
@@ -82,6 +143,7 @@ def main(argv):
                 extra.update(r)
             extra["side_effects"] = sorted(set(side_effects))[:20]  # (the history pass below spawns a process of our own)
             if ctx.history:
+                inprocess_order_pass(ctx, prop)
                 history_pass(ctx, prop, out)
     except BaseException as e:  # a harness crash is inconclusive, never "held"
         extra["harness_error"] = "".join(traceback.format_exception(type(e), e, e.__traceback__))[-4000:]
